@@ -13,14 +13,20 @@ EXTENDS Naturals, Sequences, FiniteSets, TLC, Json
 
 Sites == {"ske12", "cv12", "scv13", "ccv13", "phacv", "phafin", "fin", "srp", "binder", "checker"}
 SigSites == {"ske12", "cv12", "scv13", "ccv13", "phacv"}
-Classes == {"none", "bitflip", "empty", "trunc", "extend", "otherkey", "otherdata", "declother", "wrongsecret"}
+\* "absent": an identity is demanded (Checker) but the peer presents none (anonymous suite / empty Certificate)
+\* "stale" : the peer presents a ticket naming an identity, makes no valid proof for it (garbage binder) and the
+\*           ticket is unusable with the negotiated suite: the handshake may fall back to a full one, but the
+\*           identity named by the ticket must not be attributed
+Classes == {"none", "bitflip", "empty", "trunc", "extend", "otherkey", "otherdata", "declother", "wrongsecret", "absent", "stale"}
 KeyTypes == {"rsa", "ecdsa", "dsa", "ed25519", "rsapss", "-"}
 
 \* which (site, class, key type, version) combinations exist
 Meaningful(c) ==
   /\ (c.site \in SigSites => c.cls \in {"none", "bitflip", "empty", "trunc", "extend", "otherkey", "otherdata", "declother"})
   /\ (c.site \in SigSites => c.kt # "-")
-  /\ (c.site \notin SigSites => c.kt = "-" /\ c.cls \in {"none", "wrongsecret"})
+  /\ (c.site \notin SigSites => c.kt = "-" /\ c.cls \in {"none", "wrongsecret", "absent", "stale"})
+  /\ (c.cls = "absent" => c.site = "checker" /\ (c.role = "c" => c.ver = 3))
+  /\ (c.cls = "stale" => c.site = "binder")
   /\ (c.site = "ske12" => c.ver \in 0..3 /\ c.kt \in {"rsa", "ecdsa", "dsa"} /\ (c.kt = "ecdsa" => c.ver >= 1))
   /\ (c.site = "cv12" => c.ver \in 0..3 /\ c.kt \in {"rsa", "ecdsa", "dsa", "ed25519"}
                          /\ (c.kt = "ecdsa" => c.ver >= 1) /\ (c.kt = "ed25519" => c.ver = 3))
@@ -39,10 +45,11 @@ Meaningful(c) ==
 Cases == {c \in [site : Sites, cls : Classes, kt : KeyTypes, ver : 0..4, role : {"c", "s"}] :
             /\ Meaningful(c)
             \* which endpoint verifies at this site
-            /\ (c.site \in {"ske12", "scv13", "checker"} => c.role = "c")
+            /\ (c.site \in {"ske12", "scv13"} => c.role = "c")
             /\ (c.site \in {"cv12", "ccv13", "phacv", "phafin", "srp", "binder"} => c.role = "s")}
 
 ProofValid(c) == c.cls = "none"
+MayFallBack(c) == c.cls = "stale"
 
 VARIABLES cs, phase, peerId, proved
 vars == <<cs, phase, peerId, proved>>
@@ -50,6 +57,7 @@ Init == cs \in Cases /\ phase = "hs" /\ peerId = "none" /\ proved = FALSE
 \* the EUT checks the proof: a valid one is accepted, anything else aborts
 Verify == /\ phase = "hs"
           /\ IF ProofValid(cs) THEN phase' = "open" /\ peerId' = "presented" /\ proved' = TRUE
+             ELSE IF MayFallBack(cs) THEN phase' \in {"open", "failed"} /\ UNCHANGED <<peerId, proved>>
              ELSE phase' = "failed" /\ UNCHANGED <<peerId, proved>>
           /\ UNCHANGED cs
 Next == Verify
@@ -58,5 +66,5 @@ Emit == phase = "hs" => PrintT(ToJson(cs))
 
 \* what the property demands of an observed run o = [completed, recorded] of case c
 Conforms(c, o) == IF ProofValid(c) THEN o.completed /\ o.recorded
-                  ELSE ~o.completed /\ ~o.recorded
+                  ELSE ~o.recorded /\ (o.completed => MayFallBack(c))
 =============================================================================
